@@ -9,3 +9,38 @@ TE_CHUNKED = ['chunked', 'chunked', 'chunked', 'Chunked', 'CHUNKED', 'chunKed',
               '\xc0chunked\xff', 'CHUNKED\xb5']
 # ... and values under which it is not
 TE_OTHER = ['identity', '', 'chunke', 'chunk ed', 'chun\xc7ked', 'gzip', 'gzip, deflate', 'c,h,u,n,k,e,d']
+
+
+# every way the API offers to hand a configuration to an application
+CONFS = ('ctor', 'setup', 'setup_over', 'kw', 'kw_split', 'kw_setup', 'kw_only')
+
+
+def build_app(conf, cfg):
+    """cfg: the settings the case wants in force (max_memfile_size, max_body_size, optionally errors_map).
+    ctor: Ombott(dict); setup: Ombott() then setup(dict); setup_over: setup(dict) over other constructor values;
+    kw: a source mapping WITHOUT the keys plus keyword fall-backs (DefaultConfig(src, **kw)); kw_split: the source
+    mapping holds one key (it wins over the keyword of the same name), the keywords the rest; kw_setup: such a config
+    object through setup(); kw_only: keywords only (source None)"""
+    from ombott import Ombott, DefaultConfig
+    buf = cfg['max_memfile_size']
+    if conf == 'ctor':
+        return Ombott(cfg)
+    if conf == 'setup':
+        app = Ombott()
+        app.setup(cfg)
+        return app
+    if conf == 'setup_over':
+        app = Ombott(dict(max_memfile_size=buf + 3, max_body_size=1))
+        app.setup(cfg)
+        return app
+    if conf == 'kw':
+        return Ombott(DefaultConfig({'debug': False}, **cfg))
+    if conf == 'kw_split':
+        return Ombott(DefaultConfig({'max_memfile_size': buf, 'catchall': True}, **dict(cfg, max_memfile_size=buf + 7)))
+    if conf == 'kw_setup':
+        app = Ombott()
+        app.setup(DefaultConfig({'debug': False}, **cfg))
+        return app
+    if conf == 'kw_only':
+        return Ombott(DefaultConfig(None, **cfg))
+    raise ValueError(conf)
